@@ -513,9 +513,13 @@ func (g *Gen) overrideInit(t *Type, depth int) Expr {
 			refs = append(refs, &Ref{V: v})
 		}
 	}
-	for _, v := range g.consts {
-		if v.Ty == t {
-			refs = append(refs, &Ref{V: v})
+	if g.on("override.init-const-ref") {
+		// finding F102 when off: an initialiser that mentions a module constant is dropped as a whole
+		for _, v := range g.consts {
+			if v.Ty == t {
+				refs = append(refs, &Ref{V: v})
+				g.feat("override.init-const-ref")
+			}
 		}
 	}
 	leaf := func() Expr {
@@ -529,14 +533,23 @@ func (g *Gen) overrideInit(t *Type, depth int) Expr {
 		}
 		if t == F32 {
 			l.F = float64(r.Range(-8, 8)) / 2
+			if r.Chance(1, 2) {
+				return &Materialize{X: &Lit{Ty: AbsFloat, F: l.F}, Ty: F32}
+			}
+			g.feat("override.f-suffix")
 		}
 		return l
 	}
 	if depth <= 0 || r.Chance(1, 3) {
 		return leaf()
 	}
+	g.feat("override.compound-init")
 	switch t.Kind {
 	case KBool:
+		if !g.on("override-nonarith-op") {
+			// finding F09: comparisons and && || in an override initialiser evaluate to 0/false
+			return &Unary{Op: "!", X: g.overrideInit(t, depth-1), Ty: t}
+		}
 		switch r.Intn(3) {
 		case 0:
 			return &Unary{Op: "!", X: g.overrideInit(t, depth-1), Ty: t}
@@ -580,4 +593,9 @@ func (g *Gen) ConstExpr(t *Type, depth int) Expr {
 	g.fx = nil
 	defer func() { g.fx = old }()
 	return g.genExprT(t, depth)
+}
+
+// HostStruct generates a host-shareable struct type tree (declared in the module) for layout probes.
+func (g *Gen) HostStruct(depth int, uniform bool) *Type {
+	return g.newStruct(depth, uniform, true)
 }
